@@ -309,6 +309,8 @@ impl Family for EofFam {
                 };
                 let up = keyed(2, 0, 0, case.up);
                 let via = if case.via_http { "HTTP CONNECT" } else { "SOCKS5" };
+                // the front-end said 'connected': wait for the target's accept record to be written
+                wait_until(10_000, || target.n_conns() >= 1).await;
                 if app_closes {
                     // the application sends `up` bytes and ends its direction
                     s.write_all(&up).await.map_err(|e| Fail::plain("C08.P2", format!("write: {e}")))?;
@@ -502,7 +504,13 @@ impl Family for SrvFinFam {
                         }
                         // P2/P3 towards the target: every byte sent before the end arrives
                         let ok = wait_until(30_000, || target.total_received() >= up.len() || target.conn(0).is_some_and(|c| { let g = c.lock().unwrap(); g.error.is_some() || g.eof })).await;
+                        // (the target's accept record is written a moment after the kernel completed the
+                        // connection the SYNACK reported)
+                        wait_until(10_000, || target.n_conns() >= 1).await;
                         let conn = target.conn(0);
+                        if conn.is_none() {
+                            return Err(infra("the server reported the connection but the target never accepted one"));
+                        }
                         tokio::time::sleep(Duration::from_millis(50)).await;
                         let (got, err) = conn.as_ref().map(|c| { let g = c.lock().unwrap(); (g.received.clone(), g.error.clone()) }).unwrap_or_default();
                         let how = if case.by_session_close { "closed its session" } else { "sent FIN" };
